@@ -394,6 +394,7 @@ def r11_prepare_by_interpretation(ctx):
             if extend:
                 self._extend_super = True
             self.mixins, self.registered, self.renamed = [], [], None
+            self.__ovld__ = self
 
         def copy(self, mixins=(), **kw):
             c = OvStub(self.label + "'", origin=self)
@@ -436,7 +437,8 @@ def r11_prepare_by_interpretation(ctx):
 
     F1, F2, G1, G2, H1, H2, K2 = OvStub("B1.f"), OvStub("B2.f", True), OvStub("B1.g"), OvStub("B2.g", True), OvStub("B1.h"), OvStub("B2.h"), OvStub("B2.k", True)
     pf, pg, pk = Plain("B3.f"), Plain("B3.g"), Plain("B1.k")
-    bases = (BaseStub(f=F1, g=G1, h=H1, k=pk), BaseStub(f=F2, g=G2, h=H2, k=K2), BaseStub(f=pf, g=pg))
+    # (two bases that both define a name without marking it are left out: no statement of the property covers them)
+    bases = (BaseStub(f=F1, g=G1, h=H1, k=pk), BaseStub(f=F2, g=G2, k=K2), BaseStub(f=pf, g=pg))
     genv = {oc.name: OvStub, ns.name: DictStub, "inspect": Record(isfunction=lambda x: isinstance(x, Plain))}
     funcs = {n: g.node for n, g in p.module.funcs.items() if g.parent is None and g.cls is None and not g.node.decorator_list}
     hi = HostInterp({}, Record(), {}, globals_env=genv, classes={}, functions=funcs)
